@@ -118,9 +118,11 @@ CLAIMS["C07"] = dict(
     text=("PARTIAL - decides the division discipline, the mechanism by which the conversions avoid NaN/infinity on degenerate colours, not "
           "finiteness itself. All 192 division / recip / remainder sites of the anchored files (operator impls `colour / x` excluded: the "
           "caller's quotient) are: 46 by a non-zero constant expression (evaluated), 43 dominated by is_valid_divisor / is_normal / != 0 / "
-          "|x| > c on the same divisor with the right polarity (through if, lazy_select! closure arms, early returns, `let` aliases), 103 "
-          "(about 70 distinct after macro expansion) listed in a reviewed table with the reason the divisor is non-zero on the property's "
-          "input domain; a new or newly unguarded site, or a table line that matches nothing, fails. 584 conversion / clamp / operator / "
+          "|x| > c on the same divisor with the right polarity (through if, lazy_select! closure arms, early returns, `let` aliases), 101 "
+          "(about 70 distinct after macro expansion) listed in a reviewed table (keys: normalised divisor, invariant under let-introduction "
+          "and reordering) with the reason the divisor is non-zero on the property's input domain; 2 sites (`/ v_prime` in Xyz<-Luv) are the "
+          "open known finding F9 (in-range imaginary Luv colour gives infinity); a new or newly unguarded site, or a table line that matches "
+          "nothing, fails. 584 conversion / clamp / operator / "
           "blend / colour-difference bodies contain no unwrap, expect, panic!, unreachable! or slice indexing. Not decided: overflow of "
           "finite intermediates, NaN from transcendental functions, rounding that zeroes an algebraically non-zero divisor where the table "
           "argues over the reals."),
